@@ -130,7 +130,7 @@ fn gen_line(rng: &mut Rng, fixed_point: bool) -> String {
 pub fn plan_for(seed: u64, run: u64) -> ProcPlan {
     let mut rng = Rng::new(run_seed(seed, TAG, run));
     let tool = if rng.chance(4, 5) { Tool::Predict } else { Tool::Evaluate };
-    let model = gen_model(&mut rng, &ModelKnobs { max_window: 3, allow_big_windows: true, max_entries: 8, want_tags: None });
+    let model = gen_model(&mut rng, &ModelKnobs { max_window: 3, max_entries: 8, ..ModelKnobs::default() });
     let meta = tool == Tool::Predict && rng.chance(3, 10);
     let n_lines = rng.range(0, 12);
     let lines: Vec<String> = match tool {
